@@ -19,11 +19,13 @@
                           hypothesis (materialisation fails eagerly, a copy only where it is evaluated).
   Name resolution (`Engine.Cte`, on named statements):
     C28_model_refines     with both deviation switches off the engine model is lexical resolution (every statement)
-    C28_unique_names      if no name is defined twice in the statement (and every reference is bound) the model of the UNCHANGED
-                          tree — one global name map that is never restored, one materialisation per name — executes exactly
+    C28_unique_names      if no name is defined twice in the statement (and every reference is bound) the model of the tree
+                          BEFORE /repo 91e8987 — one global name map that is never restored, one materialisation per name — executes exactly
                           the lexically resolved statement, whichever candidate the cache materialises
     C28_shadowing_violates  kernel-checked negation witnesses for re-used names (A.16): the name-keyed cache answers (1,1)
                           instead of (1,2); the never-restored map alone answers (5,2) instead of (5,1)
+  The defect (C28-F1) was repaired by /repo 91e8987; the repaired binder is the model with both switches off (`C28_model_refines`),
+  and the witnesses of `C28_shadowing_violates` are replayed on the real engine from corpus/C28 on every run.
 -/
 import IQE.Lemmas.Cte
 namespace IQE.Props.C28
@@ -154,7 +156,7 @@ theorem C28_shadowing_violates :
     -- the reference semantics of A.16 is (1, 2) — both as resolved by the generator and with every reference inlined
     run fo0 fns0 [] (lexPlan [] a16) [] [] = .ok [[.int 1, .int 2]] ∧
     run fo0 fns0 [] (inlinedPlan a16) [] [] = .ok [[.int 1, .int 2]] ∧
-    -- the unchanged tree (cache keyed on the name; the first candidate is materialised) answers (1, 1) …
+    -- the tree before 91e8987 (cache keyed on the name; the first candidate is materialised) answers (1, 1) …
     run fo0 fns0 [] (enginePlan today [] (fun _ => 0) a16) [] [] = .ok [[.int 1, .int 1]] ∧
     -- … and (2, 2) had it materialised the other candidate: no choice is right
     run fo0 fns0 [] (enginePlan today [] (fun _ => 1) a16) [] [] = .ok [[.int 2, .int 2]] ∧
@@ -163,7 +165,7 @@ theorem C28_shadowing_violates :
     run fo0 fns0 [] (enginePlan { scopeNeverRestored := true } [] (fun _ => 0) a16b) [] [] = .ok [[.int 5, .int 2]] := by
   refine ⟨by rfl, by rfl, by rfl, by rfl, by rfl, by rfl⟩
 
-/-- `C28_unique_names` applies to the renamed statement, and there the unchanged tree is right -/
+/-- `C28_unique_names` applies to the renamed statement, and there the old tree is right -/
 example : enginePlan today [] (fun _ => 0) a16u = inlinedPlan a16u := C28_unique_names today [] _ a16u (by decide) (by decide)
 example : run fo0 fns0 [] (enginePlan today [] (fun _ => 0) a16u) [] [] = .ok [[.int 1, .int 2]] := by rfl
 /-- the hypothesis of `C28_unique_names` fails for A.16, as it must -/
